@@ -35,6 +35,8 @@ type QueryOpts struct {
 	// maximum lengths agree (VARCHAR/BLOB).
 	NoLenMismatch     bool
 	NoOrderByPosition bool // ORDER BY <n>
+	// NoNullsOrderGrouped: no NULLS FIRST/LAST in the ORDER BY of a GROUP BY query.
+	NoNullsOrderGrouped bool
 	// NoDistinctTopN: DISTINCT + ORDER BY + LIMIT gets an OFFSET 0, which keeps
 	// the engine from using its top-N heap.
 	NoDistinctTopN bool
@@ -207,25 +209,22 @@ func (g *Gen) leaf(refs []From) Expr {
 		}
 		return &Between{E: col, Lo: g.lit(lo), Hi: g.lit(hi)}
 	case kind == 12 && c.Type == TVarchar: // LIKE
-		s := GenNonNull(g.rt, c).S
+		rs := []rune(GenNonNull(g.rt, c).S) // patterns are cut on character boundaries
 		var pat string
 		switch rapid.IntRange(0, 5).Draw(g.rt, "likeKind") {
 		case 0:
-			pat = likeEscape(s)
+			pat = likeEscape(string(rs))
 		case 1:
-			pat = likeEscape(s[:len(s)/2]) + "%"
+			pat = likeEscape(string(rs[:len(rs)/2])) + "%"
 		case 2:
-			pat = "%" + likeEscape(s[len(s)/2:])
+			pat = "%" + likeEscape(string(rs[len(rs)/2:]))
 		case 3:
 			pat = "_%"
 		case 4:
 			pat = "%"
 		default:
-			if len(s) > 0 {
-				pat = "_" + likeEscape(s[1:])
-				if s[0] >= 0x80 { // '_' matches one character, not one byte
-					pat = likeEscape(s) + "_"
-				}
+			if len(rs) > 0 {
+				pat = "_" + likeEscape(string(rs[1:]))
 			} else {
 				pat = "_"
 			}
@@ -395,6 +394,8 @@ func (g *Gen) orderBy(q *Query, max int) {
 		if rapid.IntRange(0, 7).Draw(g.rt, "nullsOrd") == 0 {
 			if g.o.NoNullsOrder {
 				g.o.excluded("ORDER BY ... NULLS FIRST/LAST")
+			} else if g.o.NoNullsOrderGrouped && len(q.GroupBy) > 0 {
+				g.o.excluded("NULLS FIRST/LAST with GROUP BY")
 			} else {
 				o.Nulls = rapid.SampledFrom([]string{"FIRST", "LAST"}).Draw(g.rt, "nulls")
 			}
